@@ -39,6 +39,12 @@ UNITS2 = {
     # the formatter and the stream are the environment; mlog_dump's loop is unrolled 3 times
     'MlogSeq': (os.path.join(vlib.REPO, 'librfn/mlog.c'), ['vmlog', 'vmlog_nice', 'mlog_clear', 'get_line', 'mlog_get_line', 'mlog_dump'], 3,
                 {'externs': ['strdup_printf', 'fprintf'], 'inmem': ['_IO_FILE']}),
+    # list.c: every structure (list_t, list_node_t, list_iterator_t) lives in the byte memory and is reached through pointer values;
+    # the comparison callback of list_insert_sorted is the environment; the walks are unrolled 3 times
+    'ListSeq': (os.path.join(vlib.REPO, 'librfn/list.c'),
+                ['list_insert', 'list_push', 'list_extract', 'list_iterate', 'list_iterator_next', 'list_iterator_insert',
+                 'list_iterator_remove', 'list_contains', 'list_remove', 'list_insert_sorted'], 3,
+                {'inmem': ['list_node', 'list_node_t', 'list_t', 'list_iterator_t']}),
     # one iteration of the POSIX main loop; the clock, the scheduling pass and the sleep are the environment
     'MainLoopSeq': (os.path.join(vlib.VERIF, 'harness/wrap_mainloop.c'), ['fibre_scheduler_main_loop'], 1,
                     {'externs': ['time_now', 'fibre_scheduler_next', 'usleep'], 'flags': ['-I' + vlib.REPO]}),
@@ -61,6 +67,45 @@ def regen(units):
             continue
         vlib.write_if_changed(dst, text)
     return errors
+
+SIGFILE = os.path.join(vlib.LEAN, 'Librfn', 'Gen', 'signatures.json')
+
+
+def signatures(unit):
+    """the interface of a generated unit: parameter lists of its definitions and the fields of their result structures"""
+    import re
+    src = open(os.path.join(vlib.LEAN, 'Librfn', 'Gen', unit + '.lean')).read()
+    out = {}
+    for m in re.finditer(r'^def (\S+) (.*?) : (\S+) :=$', src, re.M):
+        out['def ' + m.group(1)] = m.group(2) + ' : ' + m.group(3)
+    for m in re.finditer(r'^structure (\S+) where\n((?:  .*\n)+)', src, re.M):
+        out['structure ' + m.group(1)] = ' '.join(l.strip() for l in m.group(2).strip().split('\n'))
+    return out
+
+
+def write_signatures():
+    """run on the unchanged tree before committing: the interface the hand-written tie theorems were stated against"""
+    import json
+    d = {u: signatures(u) for u in UNITS2 if os.path.exists(os.path.join(vlib.LEAN, 'Librfn', 'Gen', u + '.lean'))}
+    vlib.write_if_changed(SIGFILE, json.dumps(d, indent=1, sort_keys=True) + '\n')
+
+
+def signature_changes(unit):
+    """differences between the interface regenerated now and the committed one ([] if none or unknown)"""
+    import json
+    try:
+        exp = json.load(open(SIGFILE)).get(unit)
+    except (OSError, ValueError):
+        return []
+    if not exp:
+        return []
+    cur = signatures(unit)
+    out = []
+    for k in sorted(set(exp) | set(cur)):
+        if exp.get(k) != cur.get(k):
+            out.append(f'{k}: was `{exp.get(k)}` is `{cur.get(k)}`'[:400])
+    return out
+
 
 if __name__ == '__main__':
     errs = regen(sys.argv[1:] or list(UNITS) + list(UNITS2))
